@@ -44,6 +44,22 @@ class Design:
     raise SimError(f"struct {t[1]} has no field {name}")
 
 
+def is_signed(e):
+  """signedness of an expression from its operands (IEEE 1800-2017 11.8.1); variables of the emitted text are all unsigned"""
+  k = e[0]
+  if k == "signed": return True
+  if k == "cast": return is_signed(e[2])
+  if k == "num": return e[1] is None                       # an unsized decimal literal is signed
+  if k == "un" and e[1] in ("~", "-", "+"): return is_signed(e[2])
+  if k == "tern": return is_signed(e[2]) and is_signed(e[3])
+  if k == "bin" and e[1] in ("+", "-", "*", "/", "%", "&", "|", "^"): return is_signed(e[2]) and is_signed(e[3])
+  return False
+
+
+def _to_signed(x, n):
+  return x - (1 << n) if n and x >> (n - 1) else x
+
+
 class Inst:
   """One module instance: variable store + children."""
   def __init__(self, design, modname, path="top"):
@@ -169,7 +185,7 @@ class Inst:
     if k == "cat": return sum(self.size(x, env) for x in e[1])
     if k == "rep": return e[1] * self.size(e[2], env)
     if k == "cast": return e[1]
-    if k == "signed": return self.size(e[1], env)
+    if k in ("signed", "unsigned"): return self.size(e[1], env)
     if k == "un": return 1 if e[1] in ("&", "|", "^", "!") else self.size(e[2], env)
     if k == "tern": return max(self.size(e[2], env), self.size(e[3], env))
     if k == "bin":
@@ -247,6 +263,8 @@ class Inst:
       return self.ev(e[2], None, env) & mask(e[1])
     if k == "signed":
       raise Unsupported("$signed outside a size cast")
+    if k == "unsigned":                # $unsigned(x): same bits, self-determined operand, unsigned result
+      return self.ev(e[1], None, env)
     if k == "un":
       op = e[1]
       if op == "~": return (~self.ev(e[2], W, env)) & mask(W)
@@ -265,6 +283,11 @@ class Inst:
       if op in ("==", "!=", "<", "<=", ">", ">="):
         cw = max(self.size(e[2], env), self.size(e[3], env))
         a, b = self.ev(e[2], cw, env), self.ev(e[3], cw, env)
+        if is_signed(e[2]) and is_signed(e[3]):
+          # IEEE 1800-2017 11.8.1: the comparison is signed when both operands are signed; a size cast passes the signedness
+          # of its operand through (6.24.1), so N'($signed(x)) is a signed operand
+          a = _to_signed(self.ev(e[2], None, env), self.size(e[2], env))
+          b = _to_signed(self.ev(e[3], None, env), self.size(e[3], env))
         return int({"==": a == b, "!=": a != b, "<": a < b, "<=": a <= b, ">": a > b, ">=": a >= b}[op])
       if op in ("&&", "||"):
         a, b = self.ev(e[2], None, env) != 0, self.ev(e[3], None, env) != 0
